@@ -223,7 +223,7 @@ CHECKS = {
     "C12": {"engines": ["E1", "E3"]},
     "C13": {"engines": ["E3", "E1"]},
     "C14": {"engines": ["E4", "E3"], "level": "exploration"},
-    "C15": {"engines": ["E3"]},
+    "C15": {"engines": ["E3", "E1"]},
     "C16": {"engines": [("E3", {"suite": "C16", "profiles": ("pdbg", "prel"), "all_tags": True}), ("E3", {"suite": "C16R", "profiles": ("pdbg", "prel"), "all_tags": True})], "level": "exploration"},
     "C17": {"engines": [("E3", {"profiles": ("pdbg", "prel"), "diff": True}), "E1diff"], "level": "exploration"},
     "C18": {"engines": ["E1"], "level": "fault_enumeration"},
